@@ -64,7 +64,7 @@ def cases(tier):
                     G(f"rev/{ik}/{kind}/{dim}/{mkind}/n{n}/d{d0}", "reversible",
                       {"ikind": ik, "kind": kind, "dim": dim, "mkind": mkind, "n": n, "d0": d0})
     for solver in ("newton", "quasi_newton", "line_search"):
-        for mkind in (("identity", "diag", "dense") if th else ("identity", "diag")):
+        for mkind in (("identity", "diag", "dense") if th else ("identity",)):
             for n_inner in (1, 2):
                 G(f"constrained/{solver}/{mkind}/inner{n_inner}", "constrained",
                   {"solver": solver, "mkind": mkind, "n_inner": n_inner, "n": 1}, timeout_s=1500)
